@@ -577,3 +577,9 @@ void h_pop_int(void) {
   XV_OBL("kbq.advance.by_k", mon_adv_ok && !mon_plain_store);
 #endif
 }
+
+/* static fact: the slot word keeps all pointer bits (see obligation kbq.slot.any_pointer) */
+void h_slot_word(void) {
+  XV_OBL("kbq.slot.any_pointer", XV_SLOT_MARK_BITS <= XV_MAX_UPPER_MARK_BITS);
+  XV_CANARY("slot_word.reached");
+}
